@@ -194,6 +194,11 @@ class Ref:
                 self._remove_rxn(rid, op["orphans"])
                 self.graveyard.append(uid)
 
+    def op_detached_bounds(self, op, o, out):
+        g = self.dead_rxns[self.graveyard[op["k"] % len(self.graveyard)]]
+        lb, ub = op["b"]
+        g["rec"]["lb"], g["rec"]["ub"] = lb, ub  # the detached object carries its new bounds back on re-adding
+
     def op_readd(self, op, o, out):
         g = self.dead_rxns[self.graveyard[op["k"] % len(self.graveyard)]]
         rid = g["id"]
@@ -344,7 +349,7 @@ class Ref:
         d = {}
         for k, new in op["pairs"]:
             old = self.pick(o["g"], k)
-            if old not in d and GID[new] not in d.values() and GID[new] not in d and old not in d.values():
+            if old not in d and GID[new] not in d and old not in d.values():  # no chains (documented as undefined); two genes may share a target
                 d[old] = GID[new]
 
         def ren(t, a, b):
